@@ -192,6 +192,12 @@ func (w *vfWire) parseLocked(p []byte, seq int64) []vfGatePos {
 		if n := len(line); n > 0 && line[n-1] == '!' {
 			line = line[:n-1]
 		}
+		// a tunnel connection starts with the greeting, which has no newline: the first protocol line follows it directly
+		if len(line) > 9 && string(line[:9]) == "::TRZSZ::" {
+			if j := bytes.IndexByte(line, '#'); j > 0 {
+				line = line[j:]
+			}
+		}
 		typ := "?"
 		if len(line) > 0 && line[0] == '#' {
 			if j := bytes.IndexByte(line, ':'); j > 0 {
